@@ -41,6 +41,9 @@ def explore(ctx, art):
     # one peer's burst of well-formed requests to a slow resource (handler 150 ms) while a second peer asks for a fast one
     lines.append("serve udpbacklog 0 150 40 0")
     lines.append("serve udpbacklog 0 150 8 0")      # below the receive-queue size: the second peer must be served at once
+    # one peer's burst beyond the receive queue while the handler is busy with its first request: handled in arrival order
+    lines.append("serve udporder 0 120 40 0")
+    lines.append("serve udporder 0 60 100 0")
     # wildcard-bound datagram server reached over two local addresses (127.0.0.1, 127.0.0.2) while a request is queued
     lines.append("serve udpwild 0 60 0 0")
     for n in ([0, 1, 3, 5] if thorough else [0, 3]):
